@@ -15,7 +15,8 @@ Theorem C13_source_facts :
   callpoll_contains_exceptions = true /\ callpoll_reraise_guarded = true /\ mainloop_never_reraises = true /\
   main_due_rule = true /\ wait_rule = true /\ slow_fresh_twice = 1 /\ refill_rule = true /\ trigger_rule = true /\
   initialreads_contained = true /\ startup_single_pass = true /\ main_clock_per_module = true /\
-  refill_all_due = true /\ 0 < max_wait_ticks /\ 0 < startup_wait_ticks.
+  refill_all_due = true /\ timestamp_default_zero = true /\ pollinfo_only_polled_modules = true /\
+  0 < max_wait_ticks /\ 0 < startup_wait_ticks.
 Proof. repeat split; reflexivity. Qed.
 
 (* parameters marked as not polled (no read function, @nopoll, not the first key of a common handler), and
@@ -36,6 +37,28 @@ Proof.
     + rewrite (nth_error_nth' _ d0) in E; [discriminate|]. apply nth_error_None in E.
       rewrite nth_overflow in He by exact E. discriminate He.
   - rewrite Hd in He. discriminate He.
+Qed.
+
+(* modules marked as not polled (enablePoll = False) are never polled: whatever shares the poll thread with them
+   (polled modules, configured values written at start-up, initialReads), for every script, schedule of run-time
+   requests (setFastPoll / trigger / pollinterval changes addressed to them included) and number of turns, the poller
+   never calls their doPoll, hence makes no read inside it, and never calls one of their read functions; what the
+   thread does do for such a module is confined to the start-up (configured write, initialReads).
+   Code fact behind it: pollinfo_only_polled_modules (only modules of polled_modules get a PollInfo). *)
+Theorem C13_nopoll_module_never_polled : forall W n t0 ds a t m,
+  let lg := log (run W n (init_state t0 ds a)) in
+  In (LMain t m) lg \/ (exists i, In (LMRead t m i) lg) \/ (exists i, In (LRead t m i) lg) ->
+  exists d, nth_error (map fst ds) m = Some d /\ enable d = true.
+Proof.
+  intros W n t0 ds a t m lg H.
+  assert (He : enable (nth m (map fst ds) d0) = true).
+  { destruct H as [H|[H|[i H]]].
+    - exact (mains_only_enabled W n t0 ds a t m (or_introl H)).
+    - exact (mains_only_enabled W n t0 ds a t m (or_intror H)).
+    - exact (proj1 (reads_only_polled W n t0 ds a t m i H)). }
+  destruct (nth_error (map fst ds) m) as [d|] eqn:E.
+  - exists d. split; [reflexivity|]. apply nth_error_nth with (d := d0) in E. rewrite E in He. exact He.
+  - apply nth_error_None in E. rewrite nth_overflow in He by exact E. discriminate He.
 Qed.
 
 (* for every outcome script (ok, SECoP error, silent error, any other exception, communication failure) of every read,
@@ -300,8 +323,50 @@ Proof.
   intros d [<-|[<-|[]]] _; reflexivity.
 Qed.
 
+(* non-vacuity of C13_nopoll_module_never_polled: module 0 has enablePoll = false and a configured value that is written
+   at start-up, module 1 is polled; a trigger and setFastPoll are addressed to module 0 at run time.  The thread writes
+   the value, polls module 1 and never touches doPoll / read_p0 of module 0 *)
+Definition demo5_ds : list (mdesc * Z) :=
+  [({| enable := false; si := 1024; winit := true; iread := false; mainreads := [0%nat];
+       params := [{| pk := KRead; pnopoll := false |}] |}, 0);
+   ({| enable := true; si := 1024; winit := false; iread := false; mainreads := [];
+       params := [{| pk := KRead; pnopoll := false |}] |}, 1024)].
+Definition demo5_W : world := {| script := fun n => (8, OOk); eps := 1; reconn := false |}.
+Example C13_demo_nopoll_module :
+  let s := run demo5_W 4 (init_state 1024000 demo5_ds [(1024020, ATrig 0 true); (1024021, AFast 0 true 0)]) in
+  crashed s = false /\ finished s = false /\
+  rev (log s) = [LWinit 1024000 0; LRead 1024008 1 0; LStarted 1024016;
+                 LTurn 1024017; LMain 1024017 1; LTurn 1024026; LWait 1024026 998;
+                 LTurn 1025025; LMain 1025025 1; LRead 1025033 1 0; LTurn 1025042] /\
+  forall t, ~ In (LMain t 0%nat) (log s).
+Proof.
+  cbv zeta. split; [vm_compute; reflexivity|]. split; [vm_compute; reflexivity|]. split; [vm_compute; reflexivity|].
+  intros t H.
+  destruct (C13_nopoll_module_never_polled demo5_W 4 1024000 demo5_ds _ t 0%nat (or_introl H)) as (d & Hd & He).
+  simpl in Hd. inversion Hd; subst d. discriminate He.
+Qed.
+
+(* non-vacuity of C13_survives for an abandoned start-up: the first read of module 0 fails with a communication
+   failure, the first reads of p1 and of module 1 are skipped (their time stamps are still the class default 0 when
+   the slow-poll due test reaches them); the thread goes on and reads them in its first rounds *)
+Definition demo6_ds : list (mdesc * Z) :=
+  [({| enable := true; si := 1024; winit := false; iread := false; mainreads := [];
+       params := [{| pk := KRead; pnopoll := false |}; {| pk := KRead; pnopoll := false |}] |}, 1024);
+   ({| enable := true; si := 1024; winit := false; iread := false; mainreads := [];
+       params := [{| pk := KRead; pnopoll := false |}] |}, 1024)].
+Definition demo6_W : world :=
+  {| script := fun n => match n with O => (8, OErr 4 0) | _ => (8, OOk) end; eps := 1; reconn := false |}.
+Example C13_demo_abandoned_startup :
+  let s1 := startup demo6_W (init_state 1024000 demo6_ds []) in
+  let s := run demo6_W 3 (init_state 1024000 demo6_ds []) in
+  ts (get_ps (get_mod s1 0) 1) = 0 /\ ts (get_ps (get_mod s1 1) 0) = 0 /\
+  crashed s = false /\ finished s = false /\
+  In (LRead 1024127 0 1) (log s) /\ In (LRead 1024136 1 0) (log s).
+Proof. vm_compute. repeat split; auto 12. Qed.
+
 Print Assumptions C13_source_facts.
 Print Assumptions C13_nopoll_never_read.
+Print Assumptions C13_nopoll_module_never_polled.
 Print Assumptions C13_survives.
 Print Assumptions C13_wakeup_by_due.
 Print Assumptions C13_main_invariant.
